@@ -58,7 +58,7 @@ PROBES = ["reader_blocked_by_writer", "writer_blocked", "three_or_more_polling",
           "session_failed_user_exc", "session_failed_encoder_exc", "session_failed_dup_at_put",
           "session_failed_io_error", "queue_nonempty_after_failed_session", "same_path_two_spellings", "two_libraries",
           "pickled_handle", "create_race", "reader_saw_maybe_record", "molecule_library_payload", "failed_put_caught_session_continues",
-          "used_handle_shipped_to_another_process", "shipped_handle_carried_a_write_queue", "session_left_by_a_base_exception", "own_record_read_back_inside_the_writing_session", "master_made_with_overwrite_then_pickled"]
+          "used_handle_shipped_to_another_process", "shipped_handle_carried_a_write_queue", "session_left_by_a_base_exception", "own_record_read_back_inside_the_writing_session", "master_made_with_overwrite_then_pickled", "name_re_pointed_to_the_other_library"]
 
 # what user code inside a session can end with: ordinary exceptions, and the ones that do not derive from Exception
 # (Ctrl-C, sys.exit() in a worker that catches it further up, a cancelled asyncio task) - the process stays alive
@@ -227,6 +227,35 @@ def gen_plan(r, tier, index):
         procs[b]["script"] = [{"h": hb, "kind": "w", "catch": False, "think": 0.1, "timeout": None,
                                "ops": [{"op": "put", "k": f"p{procs[b]['pid']:02d}s0k{tag:04d}", "v": [tag, n_]}]}] + procs[b]["script"][:2]
         same_size = a
+    # A third directed scenario (two libraries): a name - the symbolic link cur.ukv - is re-pointed from one library to the
+    # other while a process that already used it lives on and then opens the name again.  The handle it gets works on the
+    # NEW library and has to lock the new library.
+    retarget = False
+    if (nlibs == 2 and same_size is None and ship_dirty is None and not create_race and nproc >= 2 and r.random() < 0.15
+            and not any("ships" in p_ or "adopts" in p_ for p_ in procs)):
+        retarget = True
+        pa, pb = procs[0], procs[1]
+        cb_ = r.choice([-1, 0])
+        pa["handles"] = pa["handles"][:1] + [{"lib": 0, "spelling": "cur", "readonly": False, "coll_bufsize": cb_, "pickled": False},
+                                             {"lib": 1, "spelling": "cur", "readonly": False, "coll_bufsize": cb_, "pickled": False, "dynamic": True}]
+        pa["handles"][0]["pickled"] = False
+        def _w(hidx, pid_, label, stall=None):
+            nonlocal tag
+            tag += 1
+            ops_ = [{"op": "put", "k": f"p{pid_:02d}{label}k{tag:04d}", "v": [tag, r.choice([1, 10, 60])]}]
+            if stall:
+                ops_.append({"op": "stall", "d": stall})
+                tag += 1
+                ops_.append({"op": "put", "k": f"p{pid_:02d}{label}k{tag:04d}", "v": [tag, 10]})
+            return {"h": hidx, "kind": "w", "catch": False, "think": 0, "timeout": None, "ops": ops_}
+        pseudo = {"h": 0, "think": 0, "timeout": None, "ops": [], "catch": False}
+        pa["script"] = [_w(1, pa["pid"], "u")] + [dict(pseudo, kind="retarget", to=1), dict(pseudo, kind="newhandle", h=2)] + \
+                       [_w(2, pa["pid"], "v", stall=r.choice([0.05, 0.2])), _w(2, pa["pid"], "w", stall=0.05)]
+        hb = next((i for i, h_ in enumerate(pb["handles"]) if h_["lib"] == 1 and not h_["readonly"]), None)
+        if hb is None:
+            pb["handles"][0].update({"lib": 1, "readonly": False})
+            hb = 0
+        pb["script"] = [dict(_w(hb, pb["pid"], "x", stall=0.02), think=r.choice([0, 0.01, 0.03])) for _ in range(4)]
     faults = []
     if same_size is not None:
         faults.append({"kind": "eio", "pid": procs[same_size]["pid"], "op": "write", "nth": 1, "phase": "s0:exit", "arg": 1})
@@ -262,7 +291,7 @@ def gen_plan(r, tier, index):
                            "nth": r.choice([1, 1, 2, 3]), "phase": f"s{si}:" + r.choice(["exit", "exit", "body"]),
                            "arg": r.randrange(1, 5000)})
     plan = {
-        "check": CHECK, "directed": "lost-close-then-same-size-append" if same_size is not None else None,
+        "check": CHECK, "directed": "lost-close-then-same-size-append" if same_size is not None else ("name-re-pointed-to-the-other-library" if retarget else None),
         "master_overwrite": r.random() < 0.2,
         "bufsize": r.choice([8192, 4096, 4096, 65536, 64]), "payload": r.choice(["dict", "dict", "dict", "mol"]),
         "nlibs": nlibs, "create_race": create_race, "procs": procs, "faults": faults,
@@ -383,6 +412,8 @@ def _run_plan(plan, trace=False):
                 masters[i] = m
         else:
             res.stats["probe:create_race"] += 1
+        if plan.get("directed") == "name-re-pointed-to-the-other-library":
+            kern.symlink("cur.ukv", _libname(0))
         master_blobs = {}
 
         def master_blob(i, readonly, cb):
@@ -421,6 +452,12 @@ def _run_plan(plan, trace=False):
                 inherited = set()
                 shipped_dirty = set()     # handles of this process whose copy left with a non-empty write queue
                 for h in p["handles"]:
+                    if h.get("dynamic"):
+                        handles.append(None)       # opened later, by the script
+                        continue
+                    if h["spelling"] == "cur":
+                        handles.append(_mk(K.SimPath("cur.ukv"), h["readonly"], h["coll_bufsize"]))
+                        continue
                     spelled = SPELLINGS[h["spelling"]].format(n=_libname(h["lib"]), cwd=kern.root)
                     if h["pickled"]:
                         c = pickle.loads(master_blobs[(h["lib"], h["readonly"], h["coll_bufsize"])])
@@ -438,6 +475,16 @@ def _run_plan(plan, trace=False):
                             if _queue(handles[ad["h"]]) is None or _queue(handles[ad["h"]]):
                                 inherited.add(ad["h"])
                                 res.stats["probe:shipped_handle_carried_a_write_queue"] += 1
+                    if sp["kind"] == "retarget":
+                        kern.symlink("cur.ukv", _libname(sp["to"]))
+                        res.stats["probe:name_re_pointed_to_the_other_library"] += 1
+                        continue
+                    if sp["kind"] == "newhandle":
+                        hh = p["handles"][sp["h"]]
+                        handles[sp["h"]] = _mk(K.SimPath("cur.ukv"), hh["readonly"], hh["coll_bufsize"])
+                        if not kern.norm("cur.ukv").endswith(_libname(hh["lib"])):
+                            raise K.HarnessError("retarget scenario: cur.ukv does not resolve to the library the plan expects")
+                        continue
                     c = handles[sp["h"]]
                     S = _Sess()
                     S.inherited = sp["h"] in inherited
